@@ -221,6 +221,24 @@ theorem am_pyGet?_mirror_dual (L : Int) (l : List Iv) (i : Int) (h0 : 0 ≤ i) (
   rw [e]
   exact pyGet?_mirror L l i.toNat (by omega)
 
+theorem am_mirrorL_getElem?_one (L : Int) (l : List Iv) : (mirrorL L l)[1]? = (l.reverse[1]?).map (mirrorIv L) := by
+  simp only [mirrorL, ← List.map_reverse, List.getElem?_map]
+
+theorem am_mirrorL_reverse_getElem?_one (L : Int) (l : List Iv) : (mirrorL L l).reverse[1]? = (l[1]?).map (mirrorIv L) := by
+  simp only [mirrorL_reverse, List.getElem?_map]
+
+/-- the exon measured by `categorize_exon_elongation_subtype` (outermost, or the next one behind a short fake terminal
+    exon) is reflected with the locus -/
+theorem am_measuredExon_mirror (L : Int) (p : Params) (o : Iv) (nx : Option Iv) (s : Iv) :
+    measuredExon p (mirrorIv L o) (nx.map (mirrorIv L)) (mirrorIv L s) = mirrorIv L (measuredExon p o nx s) := by
+  have hl : interval_len (mirrorIv L o) = interval_len o := by
+    simp only [interval_len, mirrorIv]; omega
+  cases nx with
+  | none => rfl
+  | some n =>
+    simp only [measuredExon, Option.map_some, am_overlaps_mirror, hl]
+    split <;> rfl
+
 theorem am_elongSides_mirror (L : Int) (g : Gene) (p : Params) (rp : ReadProf) (I : IsoInfo) (ni nEx : Nat)
     (wf : ElongWF g rp I) (hc : HasCommon rp I) :
     elongSides (mirrorGene L g) p (mirrorReadProf L g rp) (mirrorIsoInfo L ni g.splitExons.length I)
@@ -246,7 +264,8 @@ theorem am_elongSides_mirror (L : Int) (g : Gene) (p : Params) (rp : ReadProf) (
   have dcf : dualIdx g.splitExons.length cf = (g.splitExons.length : Int) - 1 - cf := by
     simp only [dualIdx, hcf, if_false]
   simp only [elongSides, mirrorGene, mirrorReadProf, mirrorIsoInfo, mirrorProfRes, mirrorRange, mirrorL_length,
-    List.length_reverse, g1, g2, g3, g4, false_and, if_false, k1, k2, k3, k4, eA, eB, mirrorL_head?, mirrorL_getLast?]
+    List.length_reverse, g1, g2, g3, g4, false_and, if_false, k1, k2, k3, k4, eA, eB, mirrorL_head?, mirrorL_getLast?,
+    am_mirrorL_getElem?_one, am_mirrorL_reverse_getElem?_one]
   cases hh : rp.blocks.head? with
   | none =>
     have : rp.blocks = [] := by simpa using hh
@@ -263,9 +282,11 @@ theorem am_elongSides_mirror (L : Int) (g : Gene) (p : Params) (rp : ReadProf) (
         cases hsl : pyGet? g.splitExons cl with
         | none => simp
         | some sl =>
-          simp only [Option.map_some, dcl, dcf]
-          have e1 := am_elongLeftOf_mirror p L g.splitExons.length nEx (I.splitRange.2 - 1) cl lr sl
-          have e2 := am_elongRightOf_mirror p L g.splitExons.length nEx I.splitRange.1 cf fr sf
+          simp only [Option.map_some, dcl, dcf, am_measuredExon_mirror]
+          have e1 := am_elongLeftOf_mirror p L g.splitExons.length nEx (I.splitRange.2 - 1) cl
+            (measuredExon p lr rp.blocks.reverse[1]? sl) sl
+          have e2 := am_elongRightOf_mirror p L g.splitExons.length nEx I.splitRange.1 cf
+            (measuredExon p fr rp.blocks[1]? sf) sf
           have a1 : (g.splitExons.length : Int) - (I.splitRange.2 - 1 + 1) = (g.splitExons.length : Int) - I.splitRange.2 := by omega
           rw [a1] at e1
           rw [e1, e2]
